@@ -19,4 +19,7 @@ def run(ctx, rep):
     operators.rule_key_not_truth_tested(ctx, rep, "C19-R6", only=lambda q: "_create_json_object" in q or "_json" in q)
     operators.rule_json_integer_tokens(ctx, rep, "C19-R7")
     textparse.rule_host_pattern_end_anchor(ctx, rep, "C19-R8", modules=("context", "values"), only=lambda q: "_create_json_object" in q)
+    from ..rules import objmodel as _om
+
+    _om.rule_converters_use_object_model(ctx, rep, "C19-R9")
     rep.undecided += ["parse(stringify(v)) structurally equal to v for all values, canonical form of stringify(parse(t)) (round-trip properties)"]
